@@ -151,17 +151,31 @@ class _BaseLayout(MaildirLayout[_MaildirT], metaclass=ABCMeta):
     def path(self) -> str:
         return self._path
 
+    #: Folder name parts that the layout uses itself.
+    _reserved: frozenset[str] = frozenset()
+
     @classmethod
     def _split(cls, name: str, delimiter: str) -> _Parts:
         if name == 'INBOX':
             return []
         parts = name.split(delimiter)
         for part in parts:
-            if part in ('', '.', '..') or '\0' in part or os.sep in part:
+            if part in ('', '.', '..') or '\0' in part or os.sep in part \
+                    or part in cls._reserved:
                 # Never a folder: it would resolve to the inbox directory
-                # itself, or outside of it.
+                # itself, inside its maildir, or outside of it.
                 raise FileNotFoundError(name)
+        if not cls._fits(parts):
+            raise FileNotFoundError(name)
         return parts
+
+    @classmethod
+    def _fits(cls, parts: _Parts) -> bool:
+        # True if the parts can be path components on the filesystem.
+        try:
+            return all(len(os.fsencode(part)) <= 255 for part in parts)
+        except UnicodeEncodeError:
+            return False
 
     @classmethod
     def _join(cls, parts: _Parts, delimiter: str) -> str:
@@ -259,6 +273,10 @@ class DefaultLayout(_BaseLayout[_MaildirT]):
         return os.path.join(self._path, self._get_subdir(parts))
 
     @classmethod
+    def _fits(cls, parts: _Parts) -> bool:
+        return super()._fits([cls._get_subdir(parts)])
+
+    @classmethod
     def _get_subdir(cls, parts: _Parts) -> str:
         if not parts:
             return ''
@@ -309,6 +327,8 @@ class FilesystemLayout(_BaseLayout[_MaildirT]):
         maildir_type: The :class:`~mailbox.Maildir` class override.
 
     """
+
+    _reserved = frozenset(['new', 'cur', 'tmp'])
 
     def _get_path(self, parts: _Parts) -> str:
         return os.path.join(self._path, *parts)
